@@ -35,6 +35,21 @@ def run(ctx):
                        'two applications whose ids differ only in case share their rows')
     shared.r_durable(ctx, "R06.durable", ("chan",),
                      "whether this app's change survives a restart depends on whether some other app's command commits the shared connection afterwards")
+    # a namespace leaves the registry on the strength of its *own* idleness
+    # (rule U of the app registry, as in R02.unique / R12.vis): an eviction keyed
+    # or guarded by anything else drops a busy app because of another app
+    from .. import e4 as _e4
+    ctx.rule("R06.evict", "a namespace is evicted from the app registry only under its own "
+             "in-use verdict (rule U on the app registry)")
+    nev = 0
+    for f in _e4.get(model).findings:
+        if f.kind == "rule_u" and model.names.reg_name("apps") in f.construct:
+            nev += 1
+            ctx.ob("R06.evict", f.construct, f.ok, f.site, f.detail +
+                   ("" if f.ok else " -- which application loses its namespace (and with it "
+                    "the live fan-out between its clients) is decided by something other "
+                    "than that application's own state"))
+    ctx.require("R06.evict", nev, 1, "rule-U instances for the app registry")
     sc = scopemod.get(model)
     ctx.rule("R06.scope", "every WHERE disjunct / VALUES list of every Mailbox and "
              "AppNamespace statement contains a conjunct bound to an app-scoped value")
